@@ -9,10 +9,10 @@ use crate::{
 
 const ASCII_ALPHA: &[&str] = &[
   "a", "b", "c", "x", "y", "0", "1", " ", " ", "\n", "\n", "\n", ";", ";", "{", "}", "=", "(",
-  ")", ",", "\t", "\r\n", "foo", "let ", "\n\n",
+  ")", ",", "\t", "\r\n", "foo", "let ", "\n\n", "\r", "\t\n",
 ];
 const UTF8_EXTRA: &[&str] = &["é", "ß", "中", "文", "😀", "\u{2028}", "\u{2029}", "\u{feff}", "ñ\n", "\u{7f}"];
-pub const FILE_NAMES: &[&str] = &["a.js", "b.js", "a.js", "x/y.ts", "webpack://m/c.js"];
+pub const FILE_NAMES: &[&str] = &["a.js", "b.js", "a.js", "x/y.ts", "webpack://m/c.js", "a.js", "b.js", ""];
 const IDENTS: &[&str] = &["foo", "bar", "x", "n0"];
 
 #[derive(Clone, Debug)]
@@ -106,15 +106,17 @@ pub fn gen_bytes(rng: &mut Rng, max_len: usize) -> Vec<u8> {
 
 /// A tame, in-range source map for `text`.
 pub fn gen_map_for(rng: &mut Rng, text: &str, own_name: Option<&str>) -> MapSpec {
-  let nsrc = 1 + rng.usize_below(2);
+  let nsrc = 1 + rng.usize_below(3);
   let mut sources: Vec<String> = (0..nsrc).map(|_| rng.pick(FILE_NAMES).to_string()).collect();
   if let Some(n) = own_name {
     if rng.chance(500) {
       sources[0] = n.to_string();
     }
   }
-  let nnames = rng.usize_below(3);
-  let names: Vec<String> = (0..nnames).map(|_| rng.pick(IDENTS).to_string()).collect();
+  let nnames = rng.usize_below(4);
+  let names: Vec<String> = (0..nnames)
+    .map(|_| if rng.chance(60) { String::new() } else { rng.pick(IDENTS).to_string() })
+    .collect();
   let sources_content: Vec<String> = match rng.below(4) {
     0 => vec![],
     1 => (0..nsrc).map(|i| if i == 0 { String::new() } else { gen_text(rng, 16, true) }).collect(),
